@@ -118,6 +118,21 @@ def gen_builtin(rng, nmax):
             "scale": rng.choice([None, 0.0, 0.2, 0.5, 1.0]), "level": rng.choice([0.05, 0.3])}
 
 
+def long_builtin(rng):
+    """series whose number of scored positions is at / just beyond typical chunk sizes (4096, 8192)"""
+    b = rng.choice([1, 2, 5])
+    n = rng.choice([4096, 8192]) + 2 * b + rng.choice([-1, 0, 1])
+    lv = [rng.randint(-3, 3) for _ in range(5)]
+    cpts = sorted(rng.sample(range(1, n), 4))
+    X = [[lv[sum(1 for c in cpts if c <= i)] + rng.choice([0, 0, 1, -1])] for i in range(n)]
+    for t in (n - b - 1, n - b, b, b + 1):  # changes right at the ends of the scored range
+        if rng.random() < 0.5:
+            for i in range(t, n):
+                X[i][0] += 4
+    return {"n": n, "b": b, "p": 1, "X": X, "score": rng.choice(["cusum", "l2"]), "mdi": 1, "scale": rng.choice([0.5, 1.0]), "level": 0.05,
+            "fitmode": "same", "prior": None, "borderline": False, "long": True}
+
+
 def _mk_score(kind):
     from skchange.change_scores import CUSUM
     from skchange.costs import GaussianVarCost, L2Cost
@@ -236,6 +251,8 @@ def run(chk: core.Check):
     if ok:
         chk.samples.append({"stream": "mw-hash/model", "line": hash_line(ok[0]), "model": outs[0][:200]})
     rng = core.rng_for(chk.seed, "C08/builtin")
+    chk.run_stream("long", [long_builtin(rng) for _ in range({"quick": 6, "thorough": 24}[tier])], impl_builtin, oracle=oracle_builtin,
+                   site="MovingWindow/long", per_case_timeout=120, describe=lambda c: {k: v for k, v in c.items() if k != "X"})
     chk.run_stream("builtin", core.Gen(gen_builtin, rng, nmax + 8, N // 3), impl_builtin, oracle=oracle_builtin,
                    site="MovingWindow/builtin", nontrivial=lambda c, r: r.get("outcome") == "ok" and len(r["cps"]) > 0,
                    describe=lambda c: {k: v for k, v in c.items() if k != "X"} | {"X[:4]": c["X"][:4]})
@@ -248,7 +265,7 @@ def replay(path):
     if case is None:
         print(json.dumps(v, indent=1)[:3000])
         return 0
-    if v["stream"] == "builtin":
+    if v["stream"] in ("builtin", "long"):
         r = impl_builtin(case)
         print("implementation:", {k: r[k] for k in r if k != "tab"}, "\noracle:", oracle_builtin(case, r))
     else:
